@@ -14,7 +14,13 @@ Import ListNotations.
 From ZI Require Export Tie.RegCommon.
 From ZI Require Import Spec.EntryPoints.
 
-Definition case_t := hist_case.
+(* A case = the phases of a history + one observed answer per registry op.  A phase is a stretch
+   of the history during which the specification world did not change: its observed graph, the
+   specifications that were changed IN PLACE to get there (classImplements & co on a class whose
+   declaration is a required specification; none for the first phase) and its ops.  Histories over
+   a static world have one phase. *)
+Definition phase := (graph * list bool * list spec * list rop)%type.
+Definition case_t := (list phase * list (list nat))%type.
 
 (* the separator of the subscribers answer (reg_common.MARK); the generated case files refer to this
    constant so that the unary number is built once per file *)
@@ -31,32 +37,55 @@ Definition step8 (W : world) (s : sys) (o : rop) : sys * list nat :=
   | _ => step W call s o
   end.
 
-Fixpoint run8 (W : world) (s : sys) (ops : list rop) : list (list nat) :=
+(* final state and answers *)
+Fixpoint run8 (W : world) (s : sys) (ops : list rop) : sys * list (list nat) :=
   match ops with
-  | [] => []
-  | o :: ops' => let '(s', a) := step8 W s o in a :: run8 W s' ops'
+  | [] => (s, [])
+  | o :: ops' => let '(s', a) := step8 W s o in let '(s'', l) := run8 W s' ops' in (s'', a :: l)
   end.
 
 Lemma step8_eq W s o : step8 W s o = step W call s o.
 Proof. destruct o; reflexivity. Qed.
 
-Lemma run8_eq W ops : forall s, run8 W s ops = run W call s ops.
+Lemma run8_eq W ops : forall s, snd (run8 W s ops) = run W call s ops.
 Proof.
   induction ops as [|o ops IH]; intros s; cbn [run8 run]; [reflexivity|].
-  rewrite step8_eq. destruct (step W call s o) as [s' a]. rewrite IH. reflexivity.
+  rewrite step8_eq. destruct (step W call s o) as [s' a]. specialize (IH s').
+  destruct (run8 W s' ops) as [s'' l]. cbn [snd] in *. rewrite IH. reflexivity.
 Qed.
 
-Definition model_out (c : case_t) : list (list nat) :=
-  let '(g, ifs, ops, _) := c in run8 (mk_world g ifs) [] ops.
+(* A specification changed in place calls changed() on everything that depends on it: the
+   specifications extending it and, through them, every lookup object that subscribed to one of
+   those (AdapterLookupBase._subscribe, the [c_required] of Model/Lookup.v).  Such a lookup object
+   drops its caches and its subscriptions (Model/RegSys.lookup_changed).  [W] is the world after the
+   change; "x extends ch" is read off x's resolution order. *)
+Definition invalidate (W : world) (chg : list spec) (s : sys) : sys :=
+  fold_left (fun s r =>
+               if existsb (fun x => existsb (fun ch => mem ch (w_sro W x)) chg) (c_required (rs_caches (get s r)))
+               then lookup_changed false s r else s)
+            (seq 0 (length s)) s.
 
-Lemma model_out_eq c : model_out c = hist_model_out c.
-Proof. destruct c as [[[g ifs] ops] obs]. apply run8_eq. Qed.
+Fixpoint run_phases (s : sys) (ps : list phase) : list (list nat) :=
+  match ps with
+  | [] => []
+  | (g, ifs, chg, ops) :: ps' =>
+      let W := mk_world g ifs in
+      let '(s', l) := run8 W (invalidate W chg s) ops in
+      l ++ run_phases s' ps'
+  end.
 
-Definition check_model (c : case_t) : bool :=
-  let '(_, _, _, obs) := c in llnat_eqb (model_out c) obs.
+Definition model_out (c : case_t) : list (list nat) := run_phases [] (fst c).
 
-Lemma check_model_eq c : check_model c = hist_check_model c.
-Proof. destruct c as [[[g ifs] ops] obs]. unfold check_model, hist_check_model. rewrite model_out_eq. reflexivity. Qed.
+Definition check_model (c : case_t) : bool := llnat_eqb (model_out c) (snd c).
+
+(* over a static world this is the shared fidelity check of Tie/RegCommon *)
+Lemma check_model_static g ifs ops obs :
+  check_model ([(g, ifs, [], ops)], obs) = hist_check_model (g, ifs, ops, obs).
+Proof.
+  unfold check_model, model_out, hist_check_model, hist_model_out. cbn [fst snd run_phases invalidate length seq fold_left].
+  pose proof (run8_eq (mk_world g ifs) ops []) as H.
+  destruct (run8 (mk_world g ifs) [] ops) as [s' l]. cbn [snd] in H. rewrite app_nil_r, H. reflexivity.
+Qed.
 
 Definition is_mutation (o : rop) : bool :=
   match o with
@@ -182,6 +211,21 @@ Fixpoint segments (l : list (rop * list nat)) (cur : list claim) : list (list cl
 Definition seg_ok (seg : list claim) : bool :=
   forallb (fun x => unary_ok x && forallb (compat x) seg) seg.
 
+(* all (op, answer) pairs of the history; a change of the world separates segments like a mutation *)
+Fixpoint pair_up (ps : list phase) (obs : list (list nat)) : option (list (rop * list nat)) :=
+  match ps with
+  | [] => match obs with [] => Some [] | _ => None end
+  | (_, _, _, ops) :: ps' =>
+      if Nat.leb (length ops) (length obs) then
+        match pair_up ps' (skipn (length ops) obs) with
+        | Some l => Some ((ORebuild 0, []) :: combine ops (firstn (length ops) obs) ++ l)
+        | None => None
+        end
+      else None
+  end.
+
 Definition check_spec (c : case_t) : bool :=
-  let '(_, _, ops, obs) := c in
-  Nat.eqb (length ops) (length obs) && forallb seg_ok (segments (combine ops obs) []).
+  match pair_up (fst c) (snd c) with
+  | Some l => forallb seg_ok (segments l [])
+  | None => false
+  end.
